@@ -78,6 +78,10 @@ def spaces(tier, seed):
         Product("no-zone-lookalikes", {"d": ["15 March 2015", "2015-03-15", "March 15, 2015", "15/03/2015"], "sep": [" - ", " \u2013 ", " \u2014 ", ", ", " @ ", " at ", " -- "],
                                        "off": offs + [37800, 47700, 1800], "lang": ["en", "auto"]},
                 note="no zone in the string: a separator (a dash with blanks around it ...) followed by a clock time whose digits equal a supported UTC offset"),
+        Product("abbreviations-after-a-call-that-skips-them", {"ab": order, "case": ["as-is", "lower"], "body": [0, 1], "pos": ["end"], "lang": ["en"], "skipfirst": [1]},
+                note="two calls in one case: first the same string with SKIP_TOKENS naming the abbreviation (lower case) - that call may well ignore the zone -, then the "
+                     "string under settings equal to the defaults except for a RELATIVE_BASE no earlier call used (a settings key the library has not seen, so "
+                     "no per-settings cache filled earlier in the worker can mask what the first call left behind)"),
         Product("no-zone-after-a-zone", {"first": FIRST, "body": range(len(BODIES)), "lang": ["en"], "suffix": [""]}),
     ]
     if tier == "thorough":
@@ -86,10 +90,19 @@ def spaces(tier, seed):
     return sp
 
 
+_fresh_key = 0
+
+
 def run_case(sub, c):
     offs, order, abbr = table()
     body, wall = BODIES[c["body"]] if "body" in c else (None, None)
     st = None
+    if "skipfirst" in c:
+        global _fresh_key
+        _fresh_key += 1
+        api.outcome_of(api.gdd, body + " " + c["ab"], ["en"], None, None, {"SKIP_TOKENS": ["t", c["ab"].lower()]})
+        st = {"RELATIVE_BASE": datetime(2001, 1, 1) + timedelta(minutes=_fresh_key)}
+        sub = "abbreviations"
     if "first" in c:
         api.outcome_of(api.gdd, ("1 March 2011 09:15 " + c["first"]).strip(), ["en"])
         sub = sub.split("-after-")[0]
